@@ -27,6 +27,9 @@ def check_valence(ctx, case, fine, where, explicit_h_expected=None):
         if el == 'H':
             nbrs = list(fine[n])
             if d.get('single_h_frag'):
+                # a fragment that is one hydrogen carries its own membership; it is still a hydrogen: one bond at most
+                if len(nbrs) > 1:
+                    ctx.fail(suites.slim(case), f'{where}: hydrogen {n} (a one-atom fragment) has {len(nbrs)} neighbours')
                 continue
             if len(nbrs) != 1:
                 ctx.fail(suites.slim(case), f'{where}: hydrogen {n} has {len(nbrs)} neighbours')
@@ -72,7 +75,17 @@ def run(ctx):
         if ctx.out_of_time():
             break
         r = i % 3
-        if r == 0:
+        if i % 9 == 4:
+            # several fragment levels: the all-atom level is the LAST of two or three resolution steps
+            import gen_levels
+            case = gen_levels.hier_case(rng)
+            ctx.feature('multi-level')
+        elif i % 9 == 7:
+            # units with fewer descriptors than neighbours, among them a single explicit hydrogen with one descriptor
+            from props import c03
+            case = c03.scarce_case(rng)
+            ctx.feature('hydrogen-unit')
+        elif r == 0:
             case = gen_mol.cut_case(rng, share_p=0.0, anno_p=rng.choice([0, 0.3]))
         elif r == 1:
             case = gen_mol.ambiguous_case(rng)
